@@ -4,6 +4,7 @@ CONSTANTS
   NE = 2
   AbsBug = "none"
   SigBug = "skip_first"
+  NB = 1
 VIEW SView
 INVARIANTS LawCallExplained
 CHECK_DEADLOCK FALSE
